@@ -485,6 +485,30 @@ func (g *rtGen) message(r *Rng, named bool) map[string]any {
 			trips[1] = d
 		}
 	}
+	if g.nyctTrips && nTrips >= 2 && r.P(1, 4) {
+		// the same trip_id (and start date) on another route, with an NYCT descriptor of its own: two different
+		// trips whose derived fields must each follow their own descriptor
+		d := deepCopyJSON(trips[0]).(map[string]any)
+		if _, ok := d["tripId"]; ok {
+			route := "TW"
+			if gs(trips[0], "routeId") == route {
+				route = "TX"
+			}
+			d["routeId"] = bstr(route)
+			n := map[string]any{}
+			if r.P(3, 4) {
+				n["trainId"] = bstr("0T 0001 TWIN/TWIN")
+			}
+			if r.P(3, 4) {
+				n["isAssigned"] = r.Bool()
+			}
+			if r.P(3, 4) {
+				n["direction"] = 1 + r.Intn(4)
+			}
+			d["nyct"] = n
+			trips[1] = d
+		}
+	}
 	vehs := []map[string]any{}
 	for _, i := range r.Perm(len(vehPool))[:nVeh] {
 		vehs = append(vehs, deepCopyJSON(vehPool[i]).(map[string]any))
